@@ -354,6 +354,11 @@ pub fn drive(log: &mut Log) {
             _ => acgt,
         };
         let mut sc = random_scheme(&mut rng, 4);
+        if (b / 4) % 2 == 0 {
+            // finite, pairwise different clip penalties: every one of them can be told from the values the
+            // mode entry points install temporarily
+            sc.clip = [-2, -3, -1, -4];
+        }
         let rel = b % 4;
         // equal inputs under a table whose best partner of a symbol is ANOTHER symbol: x = y = u^r for a
         // unit u of distinct symbols, S[u[i+d]][u[i]] = 2, everything else -2: the alignment shifted by d
@@ -430,7 +435,11 @@ pub fn drive(log: &mut Log) {
                 let mut y = pre.clone();
                 y.extend_from_slice(&x);
                 y.extend_from_slice(&post);
-                let mode = [0usize, 1, 2, 2, 3][rng.below(5) as usize];
+                let mode = match (b / 4) % 4 {
+                    0 => 2usize, // semiglobal
+                    1 => 3,      // local
+                    _ => [0usize, 1, 2, 2, 3][rng.below(5) as usize],
+                };
                 let n = y.len();
                 let w = if mode >= 2 {
                     let mut o = vec![(5i64, pre.len() as i64)];
@@ -502,6 +511,27 @@ pub fn drive(log: &mut Log) {
             calls.push(small(&mut rng));
         }
         calls.push((mode, x, y, Some(serde_json::Value::Array(wits))));
+        // right behind the big call: custom calls whose optimum depends on each of the four configured
+        // clip penalties (a shared core with junk on one side of one sequence)
+        {
+            let core: Vec<u8> = vec![alpha[0], alpha[1], alpha[2], alpha[1], alpha[0]];
+            let junk: Vec<u8> = vec![alpha[3]; 5];
+            let with = |pre: bool, post: bool| -> Vec<u8> {
+                let mut v = vec![];
+                if pre {
+                    v.extend_from_slice(&junk);
+                }
+                v.extend_from_slice(&core);
+                if post {
+                    v.extend_from_slice(&junk);
+                }
+                v
+            };
+            calls.push((0, with(true, false), core.clone(), None));
+            calls.push((0, core.clone(), with(false, true), None));
+            calls.push((0, with(false, true), with(true, false), None));
+            log.oblige("clip_sensitive_custom_calls_right_after_big_call");
+        }
         for _ in 0..3 {
             calls.push(small(&mut rng));
         }
